@@ -226,7 +226,7 @@ def build_cases(ctx, res):
             # used for verdicts: heterogeneous spelling inside one list is not among the irregularities the
             # property's quantifier enumerates, and the unchanged code does not de-duplicate such entries
             # (DESIGN.md 14.5)
-            mode = rng.choice(["full", "auth"])
+            mode = rng.choice(["full", "auth", "auth", "foreign-label"])
             for fg in (False, True):
                 cases.append(("corpus:" + name, {"structure": sd, "pairs": pairs, "mode": mode, "find_gaps": fg, "feats": feats}))
     nsyn = ctx.pick(400, 6000)
@@ -475,18 +475,47 @@ def run(ctx):
 _S184 = {}
 
 
-def real_external(text):
-    """the adapter's whole path for one FR3D listing of 184D: file -> parse -> mapping -> (BPSEQ, dot-bracket, extended)"""
+def shifted_listing(text, shift):
+    out = []
+    for line in text.splitlines():
+        f = line.split("\t")
+        for k in (0, 2):
+            if len(f) > k:
+                u = f[k].split("|")
+                if len(u) > 4 and u[4].lstrip("-").isdigit():
+                    u[4] = str(int(u[4]) + shift)
+                    f[k] = "|".join(u)
+        out.append("\t".join(f))
+    return "\n".join(out) + ("\n" if text.endswith("\n") else "")
+
+
+def real_external(item):
+    """the adapter's whole path for one FR3D listing of 184D: file -> parse -> mapping -> (BPSEQ, dot-bracket, extended).
+    item = listing text, or (shift, listing text): structure and listing with every residue number moved by `shift`
+    (negative numbers are ordinary residue numbers)"""
     import tempfile
     from rnapolis.adapter import ExternalTool, process_external_tool_output
     from rnapolis.parser import read_3d_structure
+    shift, text = item if isinstance(item, tuple) else (0, item)
     if "s" not in _S184:
         with open(os.path.join(g2.TESTS, "184D.cif")) as f:
             _S184["s"] = read_3d_structure(f, None)
+    if shift and ("s", shift) not in _S184:
+        from gen import g3
+        st = g3.mk_structure([g3.renumber(r, r.chain, r.number + shift, r.icode) for r in _S184["s"].residues if r.is_nucleotide])
+        fd, p = tempfile.mkstemp(suffix=".cif")
+        os.close(fd)
+        g3.write_cif(st, p)
+        with open(p) as f:
+            _S184[("s", shift)] = read_3d_structure(f, None)
+        os.unlink(p)
+    structure = _S184[("s", shift)] if shift else _S184["s"]
+    if shift:
+        text = shifted_listing(text, shift)
     with tempfile.NamedTemporaryFile("w", suffix=".txt", delete=False) as f:
         f.write(text)
     try:
-        st, val = call(process_external_tool_output, _S184["s"], f.name, ExternalTool.FR3D)
+        st, val = call(process_external_tool_output, structure, f.name, ExternalTool.FR3D)
     finally:
         os.unlink(f.name)
     if st != "ok":
@@ -537,6 +566,26 @@ def external_listings(ctx, res):
     import ast
     from core import _run_sequence, fork_map
     seq = fork_map(_run_sequence, [(real_external, items)], nproc=1)[0]
+    # residue numbers are names: the same structure and listing with every number moved by -4 (1..7 becomes -3..3) give
+    # the same pairs under the moved names
+    base_items = [t for t in items if t.strip()][: ctx.pick(4, 12)]
+    moved = fork_map(_run_sequence, [(real_external, [(-4, t) for t in base_items])], nproc=1)[0]
+    for t, r0, r1 in zip(base_items, [seq[items.index(t)] for t in base_items], moved):
+        try:
+            v0, v1 = ast.literal_eval(ast.literal_eval(r0)), ast.literal_eval(ast.literal_eval(r1))
+        except Exception:  # noqa: BLE001
+            continue
+        if not (isinstance(v0, tuple) and isinstance(v1, tuple) and len(v0) == 5 and len(v1) == 5):
+            if isinstance(v0, tuple) and len(v0) == 5:
+                res.fail("spec", "C06:adapter:renumbered-structure-raises", {"family": "external-listings", "listing": shifted_listing(t, -4), "shift": -4},
+                         "with all residue numbers moved by -4 the adapter path gives %r" % (v1,))
+            continue
+        res.count("external-listings:renumbered(-4)")
+        want = sorted(tuple(sorted([(a[0], a[1] - 4), (b[0], b[1] - 4)])) for a, b in v0[4])
+        got = sorted(tuple(sorted([tuple(a), tuple(b)])) for a, b in v1[4])
+        if got != want:
+            res.fail("spec", "C06:adapter:pairs-change-with-residue-numbers", {"family": "external-listings", "listing": shifted_listing(t, -4), "shift": -4},
+                     "structure and listing renumbered by -4: BPSEQ pairs %s, expected the moved pairs %s" % (got[:4], want[:4]))
     for text, r in zip(items, seq):
         try:
             val = ast.literal_eval(ast.literal_eval(r))
